@@ -9,7 +9,7 @@ from .. import core, gen, hist, model
 from ..session import Outcome
 from . import PropBase, steps_with_ids
 
-FAULTS = ("mutate_returned", "clear", "clear_typing", "stack", "spelling", "exhaust_scan")
+FAULTS = ("mutate_returned", "clear", "clear_typing", "stack", "spelling", "exhaust_scan", "reload")
 SPELLINGS = ("type", "str", "fref", "newtype", "alias", "itertypes")
 
 
@@ -217,6 +217,12 @@ class C09(PropBase):
             if steps and "clear_typing" in sw and r < 0.14:
                 steps.append({"op": "clear_typing"})
                 continue
+            if steps and "reload" in sw and r < 0.2:
+                # the world's modules are executed again: new class objects under the old names; graphs
+                # built from now on are about the new classes
+                steps.append({"op": "reload"})
+                graphs = []
+                continue
             if graphs and "mutate_returned" in sw and r < 0.3:
                 steps.append({"op": "graph_mutate", "ref": rng.choice(graphs), "how": rng.choice(["append", "clear", "pop", "reverse", "setitem"])})
                 continue
@@ -270,6 +276,13 @@ class C09(PropBase):
                 sess.faults["mutate_returned"] += 1
                 sess.fault_fired_before = True
             return Outcome(True, "mutated" if fired else "not-mutable")
+        if op == "reload":
+            sess.world.reload()
+            sess.base_render.clear()
+            sess.results.clear()
+            sess.faults["reload"] += 1
+            sess.fault_fired_before = True
+            return Outcome(True, "reloaded")
         if op != "graph":
             return None
         mod = step["mod"]
